@@ -54,7 +54,7 @@ func (e *Exec) crashEnumeration() {
 		if h > e.head() {
 			continue
 		}
-		rec := e.Blocks[h-1]
+		rec := e.at(h)
 		snap := e.snapshots[h0]
 		// dry run: count the database writes of Commit(h)
 		dry := e.scratchNode(snap, rec, "dry")
@@ -120,10 +120,10 @@ func (e *Exec) scratchNode(snap *SimDB, rec *BlockRec, tag string) *Node {
 	h := rec.B.Height
 	// upgrade-info.json is present when a plan for this height (or an earlier one) was dumped; vary it for
 	// the upgrade block itself: v2.2.1 declares no store changes, so its absence must not matter
-	if h >= 2 && e.Blocks[h-2].Plan != nil {
+	if e.at(h-1) != nil && e.at(h-1).Plan != nil {
 		if Keyed(e.S.Seed, "infofile", uint64(scratchCtr)).Chance(0.5) {
 			r := &Replica{Node: n}
-			e.dumpUpgradeInfo(r, e.Blocks[h-2].Plan)
+			e.dumpUpgradeInfo(r, e.at(h-1).Plan)
 		} else {
 			e.Stats.Inc("fault.restart.no_upgrade_info")
 		}
@@ -136,7 +136,7 @@ func (e *Exec) scratchNode(snap *SimDB, rec *BlockRec, tag string) *Node {
 		e.viol(prop, "node.start_failed", "", "%s: a node cannot be started on the database committed at height %d: %v", tag, h-1, err)
 		return nil
 	}
-	if _, ok := e.verifyRestartState(n, false, 1, []int64{h - 1}, fmt.Sprintf("%s: restart on the database committed at height %d", tag, h-1)); !ok {
+	if _, ok := e.verifyRestartState(n, false, e.H0+1, []int64{h - 1}, fmt.Sprintf("%s: restart on the database committed at height %d", tag, h-1)); !ok {
 		return nil
 	}
 	return n
@@ -189,7 +189,7 @@ func (e *Exec) oneCrashPoint(snap *SimDB, rec *BlockRec, pt crashPoint, idx int)
 	case "after_commit":
 		allowed = []int64{h}
 	}
-	lh, ok := e.verifyRestartState(n, false, 1, allowed, tag)
+	lh, ok := e.verifyRestartState(n, false, e.H0+1, allowed, tag)
 	if !ok {
 		return
 	}
@@ -200,7 +200,7 @@ func (e *Exec) oneCrashPoint(snap *SimDB, rec *BlockRec, pt crashPoint, idx int)
 	}
 	// from there: the same hashes and results as the node that never stopped (up to two more blocks)
 	for hh := lh + 1; hh <= h+2 && hh <= e.head(); hh++ {
-		o2 := e.applyBlock(n, e.Blocks[hh-1], applyOpts{Tag: tag + " (continuing)", PRNGKey: []uint64{uint64(2000 + idx)}})
+		o2 := e.applyBlock(n, e.at(hh), applyOpts{Tag: tag + " (continuing)", PRNGKey: []uint64{uint64(2000 + idx)}})
 		if o2.Halt != nil || o2.Mismatch != "" || !o2.Committed {
 			what := o2.Mismatch
 			if o2.Halt != nil {
